@@ -196,7 +196,7 @@ def check_case(ctx: Ctx, case: dict):
 def run(ctx: Ctx):
     n = ctx.n(70, 2500)
     for k in range(n):
-        cfg = gen.ModelCfg()
+        cfg = gen.ModelCfg(allow_no_params=True)
         if k % 7 == 3:
             cfg.chain = ctx.rng.randint(3, 25 if ctx.thorough else 10)
         if k % 5 == 0:
